@@ -29,6 +29,13 @@ TokSeq = z3.SeqSort(Tok)
 IntSeq = z3.SeqSort(z3.IntSort())
 StrSeq = z3.SeqSort(z3.StringSort())
 
+# what a generator that yields NODES leaves in the ghost sequence `yielded`: the node's span, its identity and the ghost `at`
+# (the value of the loop index `_i` of the enclosing for-loop at the moment of the yield; len(sequence) after the loop)
+NodeAbs = z3.Datatype("NodeAbs")
+NodeAbs.declare("mk", ("sl", z3.IntSort()), ("sc", z3.IntSort()), ("el", z3.IntSort()), ("ec", z3.IntSort()), ("at", z3.IntSort()), ("ident", z3.IntSort()))
+NodeAbs = NodeAbs.create()
+NodeAbsSeq = z3.SeqSort(NodeAbs)
+
 Val = z3.DeclareSort("Val")
 truthy = z3.Function("truthy", Val, z3.BoolSort())
 NoneVal = z3.Const("NoneVal", Val)
